@@ -105,66 +105,75 @@ Section Trees.
 Variable junk : nat -> nat -> VR.
 Notation opR := (@op VR).
 
-Lemma cls_vec_ok (c : cls) (I : @inst VR) ran ro F :
+Lemma cls_vec_ok (c : cls) (I : @inst VR) ran ro sc F :
   c_kind c = KBoth -> i_ran I = RSp ran ->
   raw_oop_vec (fun x => exec_body junk I (c_oop c) x None) (i_dom I) ran ro F ->
-  raw_ip_vec (fun x o => exec_body junk I (c_ip c) x (Some o)) (i_dom I) ran ro F ->
-  vec_ok (cls_sem junk c I) ran ro F.
+  raw_ip_vec (fun x o => exec_body junk I (c_ip c) x (Some o)) (i_dom I) ran ro sc F ->
+  vec_ok (cls_sem junk c I) ran ro sc F.
 Proof.
   intros Hk Hr Ho Hi. unfold cls_sem. rewrite Hk, Hr.
-  apply (slots_vec junk KBoth (i_dom I) ran ro F); intros _; assumption.
+  apply (slots_vec junk KBoth (i_dom I) ran ro sc F); [intros _; assumption | intros _; assumption | discriminate].
 Qed.
 
-(* [den ro o dom ran F]: o is a well-formed operator tree dom -> ran (the constructors
-   repeat the checks of the __init__ methods) and F is the function it denotes.
-   [ro] lists the elements owned by the operators of the tree with their contents. *)
-Inductive den (ro : ro_t) : opR -> space -> space -> (list R -> list R) -> Prop :=
+(* [den ro o dom ran c F]: o is a well-formed operator tree dom -> ran (the constructors
+   repeat the checks of the __init__ methods), F is the function it denotes, c lists
+   the user-supplied temporaries (tmp=, tmp_ran=) of the tree with their spaces: they
+   must be pairwise distinct objects.  [ro] lists the elements owned by the operators
+   of the tree (self.vector, ...) with their contents. *)
+Inductive den (ro : ro_t) : opR -> space -> space -> scr_t -> (list R -> list R) -> Prop :=
 | D_Leaf k f dom ran F : pf_clean f dom ran F ->
-    den ro (Lf {| lf_kind := k; lf_fun := f; lf_alias := false; lf_quirk := QNone |} dom (RSp ran)) dom ran F
+    den ro (Lf {| lf_kind := k; lf_fun := f; lf_alias := false; lf_quirk := QNone |} dom (RSp ran)) dom ran [] F
 | D_Alias f sp : pf_scalar f = (fun _ => None) ->
-    den ro (Lf {| lf_kind := KOop; lf_fun := f; lf_alias := true; lf_quirk := QNone |} sp (RSp sp)) sp sp (fun d => d)
+    den ro (Lf {| lf_kind := KOop; lf_fun := f; lf_alias := true; lf_quirk := QNone |} sp (RSp sp)) sp sp [] (fun d => d)
 | D_Scaling sp a :
-    den ro (Op cls_ScalingOperator sp (RSp sp) [Some a] [] [] []) sp sp (fun d => rscal a d)
+    den ro (Op cls_ScalingOperator sp (RSp sp) [Some a] [] [] []) sp sp [] (fun d => rscal a d)
 | D_ZeroSame sp :
-    den ro (Op cls_ZeroOperator_same sp (RSp sp) [] [] [] []) sp sp (fun d => rscal (0 / 1) d)
+    den ro (Op cls_ZeroOperator_same sp (RSp sp) [] [] [] []) sp sp [] (fun d => rscal (0 / 1) d)
 | D_ZeroDiff dom ran :
-    den ro (Op cls_ZeroOperator_diff dom (RSp ran) [] [] [] []) dom ran (fun _ => repeat 0%R (fst ran))
+    den ro (Op cls_ZeroOperator_diff dom (RSp ran) [] [] [] []) dom ran [] (fun _ => repeat 0%R (fst ran))
 | D_Constant dom ran v dv : In (v, ran, dv) ro ->
-    den ro (Op cls_ConstantOperator dom (RSp ran) [] [v] [] []) dom ran (fun _ => dv)
+    den ro (Op cls_ConstantOperator dom (RSp ran) [] [v] [] []) dom ran [] (fun _ => dv)
 | D_Multiply sp v dv : In (v, sp, dv) ro ->
-    den ro (Op cls_MultiplyOperator sp (RSp sp) [] [v] [] []) sp sp (fun d => rmul dv d)
-| D_Sum l r dom ran Fl Fr : den ro l dom ran Fl -> den ro r dom ran Fr ->
-    den ro (Op cls_OperatorSum dom (RSp ran) [] [] [None; None] [l; r]) dom ran (fun d => radd (Fl d) (Fr d))
-| D_VecSum a dom ran F v dv : den ro a dom ran F -> In (v, ran, dv) ro ->
-    den ro (Op cls_OperatorVectorSum dom (RSp ran) [] [v] [] [a]) dom ran (fun d => radd (F d) dv)
-| D_Comp l r dom mid ran Fl Fr : den ro l mid ran Fl -> den ro r dom mid Fr ->
-    den ro (Op cls_OperatorComp dom (RSp ran) [] [] [None] [l; r]) dom ran (fun d => Fl (Fr d))
-| D_PProd l r dom ran Fl Fr : den ro l dom ran Fl -> den ro r dom ran Fr ->
-    den ro (Op cls_OperatorPointwiseProduct dom (RSp ran) [] [] [] [l; r]) dom ran (fun d => rmul (Fl d) (Fr d))
-| D_LScal a dom ran F c : den ro a dom ran F ->
-    den ro (Op cls_OperatorLeftScalarMult dom (RSp ran) [Some c] [] [] [a]) dom ran (fun d => rscal c (F d))
-| D_RScal a dom ran F c : den ro a dom ran F ->
-    den ro (Op cls_OperatorRightScalarMult dom (RSp ran) [Some c] [] [None] [a]) dom ran (fun d => F (rscal c d))
+    den ro (Op cls_MultiplyOperator sp (RSp sp) [] [v] [] []) sp sp [] (fun d => rmul dv d)
+| D_Sum l r dom ran cl_ cr ot od Fl Fr : den ro l dom ran cl_ Fl -> den ro r dom ran cr Fr ->
+    NoDup (scr_ids (own_scr ot ran ++ cl_ ++ cr)) ->
+    den ro (Op cls_OperatorSum dom (RSp ran) [] [] [ot; od] [l; r]) dom ran (own_scr ot ran ++ cl_ ++ cr)
+        (fun d => radd (Fl d) (Fr d))
+| D_VecSum a dom ran c F v dv : den ro a dom ran c F -> In (v, ran, dv) ro ->
+    den ro (Op cls_OperatorVectorSum dom (RSp ran) [] [v] [] [a]) dom ran c (fun d => radd (F d) dv)
+| D_Comp l r dom mid ran cl_ cr ot Fl Fr : den ro l mid ran cl_ Fl -> den ro r dom mid cr Fr ->
+    NoDup (scr_ids (own_scr ot mid ++ cl_ ++ cr)) ->
+    den ro (Op cls_OperatorComp dom (RSp ran) [] [] [ot] [l; r]) dom ran (own_scr ot mid ++ cl_ ++ cr)
+        (fun d => Fl (Fr d))
+| D_PProd l r dom ran cl_ cr Fl Fr : den ro l dom ran cl_ Fl -> den ro r dom ran cr Fr ->
+    (forall i, In i (scr_ids cl_) -> ~ In i (scr_ids cr)) ->
+    den ro (Op cls_OperatorPointwiseProduct dom (RSp ran) [] [] [] [l; r]) dom ran (cl_ ++ cr)
+        (fun d => rmul (Fl d) (Fr d))
+| D_LScal a dom ran c F k : den ro a dom ran c F ->
+    den ro (Op cls_OperatorLeftScalarMult dom (RSp ran) [Some k] [] [] [a]) dom ran c (fun d => rscal k (F d))
+| D_RScal a dom ran c ot F k : den ro a dom ran c F -> NoDup (scr_ids (own_scr ot dom ++ c)) ->
+    den ro (Op cls_OperatorRightScalarMult dom (RSp ran) [Some k] [] [ot] [a]) dom ran (own_scr ot dom ++ c)
+        (fun d => F (rscal k d))
 | D_FLVec f dom ran g v dv : dens ro f dom g -> In (v, ran, dv) ro ->
-    den ro (Op cls_FunctionalLeftVectorMult dom (RSp ran) [] [v] [] [f]) dom ran (fun d => rscal (g d) dv)
-| D_LVec a dom ran F v dv : den ro a dom ran F -> In (v, ran, dv) ro ->
-    den ro (Op cls_OperatorLeftVectorMult dom (RSp ran) [] [v] [] [a]) dom ran (fun d => rmul dv (F d))
-| D_RVec a dom ran F v dv : den ro a dom ran F -> In (v, dom, dv) ro ->
-    den ro (Op cls_OperatorRightVectorMult dom (RSp ran) [] [v] [] [a]) dom ran (fun d => F (rmul d dv))
+    den ro (Op cls_FunctionalLeftVectorMult dom (RSp ran) [] [v] [] [f]) dom ran [] (fun d => rscal (g d) dv)
+| D_LVec a dom ran c F v dv : den ro a dom ran c F -> In (v, ran, dv) ro ->
+    den ro (Op cls_OperatorLeftVectorMult dom (RSp ran) [] [v] [] [a]) dom ran c (fun d => rmul dv (F d))
+| D_RVec a dom ran c F v dv : den ro a dom ran c F -> In (v, dom, dv) ro ->
+    den ro (Op cls_OperatorRightVectorMult dom (RSp ran) [] [v] [] [a]) dom ran c (fun d => F (rmul d dv))
 (* [dens ro o dom g]: o is a well-formed tree with a FIELD range (a functional) denoting g *)
 with dens (ro : ro_t) : opR -> space -> (list R -> R) -> Prop :=
 | DS_Leaf k f al dom g : k <> KIp -> pf_sc_clean f dom g ->
     dens ro (Lf {| lf_kind := k; lf_fun := f; lf_alias := al; lf_quirk := QNone |} dom RField) dom g
-| DS_Sum l r dom gl gr : dens ro l dom gl -> dens ro r dom gr ->
-    dens ro (Op cls_OperatorSum dom RField [] [] [None; None] [l; r]) dom (fun d => (gl d + gr d)%R)
+| DS_Sum l r dom gl gr ot od : dens ro l dom gl -> dens ro r dom gr ->
+    dens ro (Op cls_OperatorSum dom RField [] [] [ot; od] [l; r]) dom (fun d => (gl d + gr d)%R)
 | DS_PProd l r dom gl gr : dens ro l dom gl -> dens ro r dom gr ->
     dens ro (Op cls_OperatorPointwiseProduct dom RField [] [] [] [l; r]) dom (fun d => (gl d * gr d)%R)
 | DS_LScal a dom g c : dens ro a dom g ->
     dens ro (Op cls_OperatorLeftScalarMult dom RField [Some c] [] [] [a]) dom (fun d => (c * g d)%R)
-| DS_RScal a dom g c : dens ro a dom g ->
-    dens ro (Op cls_OperatorRightScalarMult dom RField [Some c] [] [None] [a]) dom (fun d => g (rscal c d))
-| DS_Comp l r dom mid g Fr : dens ro l mid g -> den ro r dom mid Fr ->
-    dens ro (Op cls_OperatorComp dom RField [] [] [None] [l; r]) dom (fun d => g (Fr d))
+| DS_RScal a dom g c ot : dens ro a dom g ->
+    dens ro (Op cls_OperatorRightScalarMult dom RField [Some c] [] [ot] [a]) dom (fun d => g (rscal c d))
+| DS_Comp l r dom mid g cr ot Fr : dens ro l mid g -> den ro r dom mid cr Fr ->
+    dens ro (Op cls_OperatorComp dom RField [] [] [ot] [l; r]) dom (fun d => g (Fr d))
 | DS_RVec a dom g v dv : dens ro a dom g -> In (v, dom, dv) ro ->
     dens ro (Op cls_OperatorRightVectorMult dom RField [] [v] [] [a]) dom (fun d => g (rmul d dv)).
 
@@ -181,19 +190,20 @@ Proof.
 Qed.
 
 Lemma den_dens_ok ro :
-  (forall o dom ran F, den ro o dom ran F -> o_dom (sem junk o) = dom /\ vec_ok (sem junk o) ran ro F) /\
+  (forall o dom ran c F, den ro o dom ran c F -> o_dom (sem junk o) = dom /\ vec_ok (sem junk o) ran ro c F) /\
   (forall o dom g, dens ro o dom g -> o_dom (sem junk o) = dom /\ sc_ok (sem junk o) ro g).
 Proof.
   apply den_dens_ind.
   - (* primitive leaf, any dispatch kind *)
     intros k f dom ran F Hf.
     cbn [sem]. unfold leaf_sem. cbn [lf_kind]. split; [destruct k; reflexivity|].
-    pose proof (slots_vec junk k dom ran ro F
+    pose proof (slots_vec junk k dom ran ro [] F
                   (leaf_raw_oop {| lf_kind := k; lf_fun := f; lf_alias := false; lf_quirk := QNone |})
                   (leaf_raw_ip {| lf_kind := k; lf_fun := f; lf_alias := false; lf_quirk := QNone |})) as S.
     destruct (slots junk k (RSp ran) _ _) as [ip oop]. apply S; intros _.
     + apply leaf_oop; exact Hf.
     + apply leaf_ip; exact Hf.
+    + reflexivity.
   - (* leaf returning its argument (RealPart on a real space) *)
     intros f sp Hs.
     cbn [sem]. unfold leaf_sem. cbn [lf_kind slots]. split; [reflexivity|].
@@ -210,43 +220,44 @@ Proof.
     apply cls_vec_ok; [reflexivity | reflexivity | apply constant_oop; exact Iv | apply constant_ip; exact Iv].
   - intros sp v dv Iv. cbn [sem map]. split; [reflexivity|].
     apply cls_vec_ok; [reflexivity | reflexivity | apply multiply_oop; exact Iv | apply multiply_ip; exact Iv].
-  - intros l r dom ran Fl Fr Dl [Hdl Hl] Dr [Hdr Hr]. cbn [sem map]. split; [reflexivity|].
-    apply cls_vec_ok; [reflexivity | reflexivity | apply sum_oop; assumption | apply sum_ip; assumption].
-  - intros a dom ran F v dv Da [Hda Ha] Iv. cbn [sem map]. split; [reflexivity|].
-    apply cls_vec_ok; [reflexivity | reflexivity | apply vecsum_oop; assumption | apply vecsum_ip; assumption].
-  - intros l r dom mid ran Fl Fr Dl [Hdl Hl] Dr [Hdr Hr]. cbn [sem map]. split; [reflexivity|].
+  - intros l r dom ran cl_ cr ot od Fl Fr Dl [Hdl Hl] Dr [Hdr Hr] ND. cbn [sem map]. split; [reflexivity|].
+    apply cls_vec_ok; [reflexivity | reflexivity | eapply sum_oop; eassumption | apply sum_ip; assumption].
+  - intros a dom ran c F v dv Da [Hda Ha] Iv. cbn [sem map]. split; [reflexivity|].
+    apply cls_vec_ok; [reflexivity | reflexivity | eapply vecsum_oop; eassumption | apply vecsum_ip; assumption].
+  - intros l r dom mid ran cl_ cr ot Fl Fr Dl [Hdl Hl] Dr [Hdr Hr] ND. cbn [sem map]. split; [reflexivity|].
     apply cls_vec_ok; [reflexivity | reflexivity | eapply comp_oop; eassumption | eapply comp_ip; eassumption].
-  - intros l r dom ran Fl Fr Dl [Hdl Hl] Dr [Hdr Hr]. cbn [sem map]. split; [reflexivity|].
-    apply cls_vec_ok; [reflexivity | reflexivity | apply pprod_oop; assumption | apply pprod_ip; assumption].
-  - intros a dom ran F c Da [Hda Ha]. cbn [sem map]. split; [reflexivity|].
-    apply cls_vec_ok; [reflexivity | reflexivity | apply lscal_oop; assumption | apply lscal_ip; assumption].
-  - intros a dom ran F c Da [Hda Ha]. cbn [sem map]. split; [reflexivity|].
-    apply cls_vec_ok; [reflexivity | reflexivity | apply rscal_oop; assumption | apply rscal_ip; assumption].
+  - intros l r dom ran cl_ cr Fl Fr Dl [Hdl Hl] Dr [Hdr Hr] ND. cbn [sem map]. split; [reflexivity|].
+    apply cls_vec_ok; [reflexivity | reflexivity | eapply pprod_oop; eassumption | apply pprod_ip; assumption].
+  - intros a dom ran c F k Da [Hda Ha]. cbn [sem map]. split; [reflexivity|].
+    apply cls_vec_ok; [reflexivity | reflexivity | eapply lscal_oop; eassumption | apply lscal_ip; assumption].
+  - intros a dom ran c ot F k Da [Hda Ha] ND. cbn [sem map]. split; [reflexivity|].
+    apply cls_vec_ok; [reflexivity | reflexivity | eapply rscal_oop; eassumption | apply rscal_ip; assumption].
   - intros f dom ran g v dv Df [Hdf Hf] Iv. cbn [sem map]. split; [reflexivity|].
     apply cls_vec_ok; [reflexivity | reflexivity | apply flvec_oop; assumption | apply flvec_ip; assumption].
-  - intros a dom ran F v dv Da [Hda Ha] Iv. cbn [sem map]. split; [reflexivity|].
-    apply cls_vec_ok; [reflexivity | reflexivity | apply lvec_oop; assumption | apply lvec_ip; assumption].
-  - intros a dom ran F v dv Da [Hda Ha] Iv. cbn [sem map]. split; [reflexivity|].
-    apply cls_vec_ok; [reflexivity | reflexivity | apply rvec_oop; assumption | apply rvec_ip; assumption].
+  - intros a dom ran c F v dv Da [Hda Ha] Iv. cbn [sem map]. split; [reflexivity|].
+    apply cls_vec_ok; [reflexivity | reflexivity | eapply lvec_oop; eassumption | apply lvec_ip; assumption].
+  - intros a dom ran c F v dv Da [Hda Ha] Iv. cbn [sem map]. split; [reflexivity|].
+    apply cls_vec_ok; [reflexivity | reflexivity | eapply rvec_oop; eassumption | apply rvec_ip; assumption].
   - (* functional leaf *)
     intros k f al dom g Hk Hf.
     cbn [sem]. unfold leaf_sem. cbn [lf_kind].
     destruct k; try congruence; cbn [slots]; (split; [reflexivity|]); apply public_sc; apply leaf_sc; exact Hf.
-  - intros l r dom gl gr Dl [Hdl Hl] Dr [Hdr Hr]. cbn [sem map]. split; [reflexivity|].
+  - intros l r dom gl gr ot od Dl [Hdl Hl] Dr [Hdr Hr]. cbn [sem map]. split; [reflexivity|].
     apply cls_sc_ok; [reflexivity | reflexivity | apply fsum_sc; assumption].
   - intros l r dom gl gr Dl [Hdl Hl] Dr [Hdr Hr]. cbn [sem map]. split; [reflexivity|].
     apply cls_sc_ok; [reflexivity | reflexivity | apply fpprod_sc; assumption].
   - intros a dom g c Da [Hda Ha]. cbn [sem map]. split; [reflexivity|].
     apply cls_sc_ok; [reflexivity | reflexivity | apply flscal_sc; assumption].
-  - intros a dom g c Da [Hda Ha]. cbn [sem map]. split; [reflexivity|].
+  - intros a dom g c ot Da [Hda Ha]. cbn [sem map]. split; [reflexivity|].
     apply cls_sc_ok; [reflexivity | reflexivity | apply frscal_sc; assumption].
-  - intros l r dom mid g Fr Dl [Hdl Hl] Dr [Hdr Hr]. cbn [sem map]. split; [reflexivity|].
+  - intros l r dom mid g cr ot Fr Dl [Hdl Hl] Dr [Hdr Hr]. cbn [sem map]. split; [reflexivity|].
     apply cls_sc_ok; [reflexivity | reflexivity | eapply fcomp_sc; eassumption].
   - intros a dom g v dv Da [Hda Ha] Iv. cbn [sem map]. split; [reflexivity|].
     apply cls_sc_ok; [reflexivity | reflexivity | apply frvec_sc; assumption].
 Qed.
 
-Theorem den_ok ro o dom ran F : den ro o dom ran F -> o_dom (sem junk o) = dom /\ vec_ok (sem junk o) ran ro F.
+Theorem den_ok ro o dom ran c F :
+  den ro o dom ran c F -> o_dom (sem junk o) = dom /\ vec_ok (sem junk o) ran ro c F.
 Proof. apply (proj1 (den_dens_ok ro)). Qed.
 Theorem dens_ok ro o dom g : dens ro o dom g -> o_dom (sem junk o) = dom /\ sc_ok (sem junk o) ro g.
 Proof. apply (proj2 (den_dens_ok ro)). Qed.
@@ -284,26 +295,27 @@ Qed.
 Definition untouched_except (s s' : storeR) (m : list nat) : Prop :=
   forall i, (i < length s)%nat -> ~ In i m -> rd s' i = rd s i.
 
-Theorem protocol_all_trees ro o dom ran F :
-  den ro o dom ran F ->
+Theorem protocol_all_trees ro o dom ran c F :
+  den ro o dom ran c F ->
   forall (s : storeR) x y dx dy,
     wf_store s -> good ro s ->
     rd s x = Some (dom, cl dx) ->          (* x: any NaN-free element of the domain *)
     rd s y = Some (ran, dy) ->             (* y: an element of the range with ARBITRARY contents *)
     x <> y -> ~ In y (ro_ids ro) ->
+    scr_ok c ro s x y ->                   (* user temporaries exist and are neither x, y nor read-only *)
     (* op(x) *)
     (exists r s1, call junk o (VElem x) None s = Ok (VElem r) s1 /\
         rd s1 r = Some (ran, cl (F dx)) /\ untouched_except s s1 [] /\ (r = x \/ (length s <= r)%nat)) /\
     (* op(x, out=y) *)
     (exists s2, call junk o (VElem x) (Some (VElem y)) s = Ok (VElem y) s2 /\
-        rd s2 y = Some (ran, cl (F dx)) /\ untouched_except s s2 [y]).
+        rd s2 y = Some (ran, cl (F dx)) /\ untouched_except s s2 (y :: scr_ids c)).
 Proof.
-  intros D s x y dx dy W G Ex Ey Nxy Ny.
-  destruct (den_ok _ _ _ _ _ D) as (Hd & _ & Hoop & Hip). unfold call.
+  intros D s x y dx dy W G Ex Ey Nxy Ny Hs.
+  destruct (den_ok _ _ _ _ _ _ D) as (Hd & _ & Hoop & Hip). unfold call.
   rewrite <- Hd in Ex. split.
   - destruct (Hoop s x dx W G Ex) as (r & s1 & Hc & Er & E1 & _ & Hr).
     exists r, s1. splits; auto. intros i Li Ni. eapply ext_same; eassumption.
-  - destruct (Hip s x y dx dy W G Ex Ey Nxy Ny) as (s2 & Hc & Er & E2 & _).
+  - destruct (Hip s x y dx dy W G Ex Ey Nxy Ny Hs) as (s2 & Hc & Er & E2 & _).
     exists s2. splits; auto. intros i Li Ni. eapply ext_same; eassumption.
 Qed.
 End Trees.
